@@ -41,6 +41,7 @@ SEC_REASONS = {12, 13, 14, 15, 16}
 SCOPES = [
     {0: 1, -1: 1}, {0: 1, -1: 1, -2: 1}, {-1: 1}, {0: 1, -1: 1, 3: 1}, {0: 1, -1: 1, 3: 3}, {0: 1, -1: 1, 3: 2, -2: 1},
     None,    # no AAD-scope parameter: the default scope applies
+    {},      # an AAD-scope parameter that is present and empty: nothing but source, scope and protected parameters is bound
 ]
 
 
